@@ -155,13 +155,20 @@ class MutableNodeIdentity(_Identity):
     file = "allmydata/mutable/filenode.py"
     qualname = "MutableFileNode.__eq__"
 
+    # other per-node attributes derived from the cap are functions of the cap string, not injective
+    # (e.g. the read-write and read-only caps of one file share a storage index)
+    @staticmethod
+    def SI(t):
+        return z3.SubString(t, 0, 1)
+
     def mk(self, I, cap):
-        return SObj(self.module().MutableFileNode, {"_uri": cap_obj(I, cap)})
+        return SObj(self.module().MutableFileNode, {"_uri": cap_obj(I, cap), "_storage_index": SStr(self.SI(as_sstr(cap).term), True)})
 
     def mk_native(self, cap):
         from allmydata.mutable.filenode import MutableFileNode
         n = object.__new__(MutableFileNode)
         n._uri = CapIdentity().mk_native(cap)
+        n._storage_index = cap[:1]   # a non-injective function of the cap, as the real derivation is
         return n
 
 
